@@ -59,10 +59,16 @@ fn main() {
         println!("cargo:rerun-if-changed={}", path.display());
         let mut text = std::fs::read_to_string(&path).unwrap_or_else(|e| panic!("cannot read {}: {e}", path.display()));
         for (from, to) in subs {
-            assert!(
-                text.contains(from),
-                "qx/build.rs: expected text `{from}` not found in {rel}; the import rules must be revisited"
-            );
+            // the `use` lines must be there (without the rewrite nothing would be intercepted: fail
+            // loudly); the random draw and the cpu count may have been rephrased by a change under
+            // test - then the source keeps its own (rand / num_cpus are linked) and only the
+            // harness' control over the steal start is lost
+            let optional = from.starts_with("rand::rng()") || from.starts_with("num_cpus::") || from == "use rand::RngExt;";
+            if !text.contains(from) {
+                assert!(optional, "qx/build.rs: expected text `{from}` not found in {rel}; the import rules must be revisited");
+                println!("cargo:warning=qx import: `{from}` not found in {rel}; left as it is");
+                continue;
+            }
             text = text.replace(from, &to);
         }
         // doc tests / doc includes are irrelevant here
